@@ -7,13 +7,13 @@ require (
 	github.com/IBM/TSS/mpc/bls v0.0.0
 	github.com/IBM/TSS/mpc/ps v0.0.0
 	github.com/IBM/mathlib v0.0.3-0.20230831091907-c532c4d3b65c
+	github.com/consensys/gnark-crypto v0.9.1
 	pgregory.net/rapid v1.3.0
 	verif/vh v0.0.0
 )
 
 require (
 	github.com/consensys/bavard v0.1.13 // indirect
-	github.com/consensys/gnark-crypto v0.9.1 // indirect
 	github.com/hyperledger/fabric-amcl v0.0.0-20230602173724-9e02669dceb2 // indirect
 	github.com/kilic/bls12-381 v0.1.0 // indirect
 	github.com/mmcloughlin/addchain v0.4.0 // indirect
